@@ -8,6 +8,7 @@ import (
 	"crypto/rand"
 	"crypto/sha256"
 	"crypto/x509"
+	"crypto/x509/pkix"
 	encasn1 "encoding/asn1"
 	"fmt"
 	"io"
@@ -60,7 +61,8 @@ func c05Keys(tier string) []int {
 type c05Issuer struct {
 	name string
 	raw  []byte
-	ca   bool // issued by keys.CA(): issuer differs from subject
+	ca   bool       // issued by keys.CA(): issuer differs from subject
+	kind *keys.Kind // how the certificate itself is signed / by what kind of CA (nil = SHA256WithRSA)
 }
 
 func c05Issuers() []c05Issuer {
@@ -72,13 +74,24 @@ func c05Issuers() []c05Issuer {
 		return der.Cons(0x30, der.Prim(0x06, oid), der.Prim(tag, []byte(v)))
 	}
 	name := func(rdns ...*der.Node) []byte { return der.Cons(0x30, rdns...).Encode() }
-	return []c05Issuer{
-		{"short", name(rdn(atv(oidCN, 0x13, "a"))), false},
-		{"long (>127 bytes)", name(rdn(atv(oidC, 0x13, "NO")), rdn(atv(oidO, 0x13, strings.Repeat("Long Organisation Name ", 9))), rdn(atv(oidCN, 0x13, "signer"))), false},
-		{"multi-valued RDN", name(rdn(atv(oidCN, 0x13, "mv"), atv(oidO, 0x13, "org")), rdn(atv(oidCN, 0x13, "leaf"))), false},
-		{"UTF8String", name(rdn(atv(oidO, 0x0c, "Ünïcödé Örg")), rdn(atv(oidCN, 0x0c, "ключ"))), false},
-		{"issued by a CA (issuer != subject)", name(rdn(atv(oidCN, 0x13, "leaf signer"))), true},
+	is := []c05Issuer{
+		{"short", name(rdn(atv(oidCN, 0x13, "a"))), false, nil},
+		{"long (>127 bytes)", name(rdn(atv(oidC, 0x13, "NO")), rdn(atv(oidO, 0x13, strings.Repeat("Long Organisation Name ", 9))), rdn(atv(oidCN, 0x13, "signer"))), false, nil},
+		{"multi-valued RDN", name(rdn(atv(oidCN, 0x13, "mv"), atv(oidO, 0x13, "org")), rdn(atv(oidCN, 0x13, "leaf"))), false, nil},
+		{"UTF8String", name(rdn(atv(oidO, 0x0c, "Ünïcödé Örg")), rdn(atv(oidCN, 0x0c, "ключ"))), false, nil},
+		{"issued by a CA (issuer != subject)", name(rdn(atv(oidCN, 0x13, "leaf signer"))), true, nil},
+		// attribute types and an order Go's pkix.Name would not produce: common name first, e-mail address
+		// and domain components as IA5String
+		{"CN before C, emailAddress, domainComponent", name(rdn(atv(oidCN, 0x0c, "first")), rdn(atv(oidC, 0x13, "NO")), rdn(atv(der.OID(1, 2, 840, 113549, 1, 9, 1), 0x16, "sb@example.org")),
+			rdn(atv(der.OID(0, 9, 2342, 19200300, 100, 1, 25), 0x16, "example")), rdn(atv(der.OID(0, 9, 2342, 19200300, 100, 1, 25), 0x16, "org"))), false, nil},
 	}
+	// the certificate's own signature algorithm and the kind of CA that issued it are irrelevant to
+	// the SignedData (always SHA-256 / RSA with the signer's key): every kind is in the alphabet
+	for i, kd := range keys.Kinds()[2:] {
+		kd := kd
+		is = append(is, c05Issuer{"certificate " + kd.Name, name(rdn(atv(oidO, 0x13, "kinds")), rdn(atv(oidCN, 0x13, fmt.Sprintf("kind %d", i)))), false, &kd})
+	}
+	return is
 }
 
 func c05Serials() []*big.Int {
@@ -88,6 +101,9 @@ func c05Serials() []*big.Int {
 }
 
 func c05Cert(k int, iss c05Issuer, serial *big.Int) (*x509.Certificate, error) {
+	if iss.kind != nil {
+		return keys.CertOfKind(k, *iss.kind, iss.raw, pkix.Name{}, serial)
+	}
 	tmpl := &x509.Certificate{SerialNumber: serial, RawSubject: iss.raw, NotBefore: keys.NotBefore, NotAfter: keys.NotAfter,
 		SignatureAlgorithm: x509.SHA256WithRSA, KeyUsage: x509.KeyUsageDigitalSignature, BasicConstraintsValid: true}
 	parent, signer := tmpl, memoSignerFor(k)
